@@ -269,9 +269,11 @@ func (d *Document) addFootnoteOrEndnote(text string, noteText string, noteType F
 	var noteID string
 	if noteType == FootnoteTypeFootnote {
 		noteID = strconv.Itoa(manager.nextFootnoteID)
+		verifPoint("notes.id-read")
 		manager.nextFootnoteID++
 	} else {
 		noteID = strconv.Itoa(manager.nextEndnoteID)
+		verifPoint("notes.id-read")
 		manager.nextEndnoteID++
 	}
 
@@ -471,9 +473,11 @@ func (d *Document) createNoteContent(noteID string, noteText string, noteType Fo
 			ID:         noteID,
 			Paragraphs: []*Paragraph{noteParagraph},
 		}
+		verifPoint("notes.before-store")
 		manager.footnotes[noteID] = footnote
 
 		// 更新脚注文件
+		verifPoint("notes.before-regen")
 		d.updateFootnotesFile()
 	} else {
 		// 创建尾注
@@ -481,9 +485,11 @@ func (d *Document) createNoteContent(noteID string, noteText string, noteType Fo
 			ID:         noteID,
 			Paragraphs: []*Paragraph{noteParagraph},
 		}
+		verifPoint("notes.before-store")
 		manager.endnotes[noteID] = endnote
 
 		// 更新尾注文件
+		verifPoint("notes.before-regen")
 		d.updateEndnotesFile()
 	}
 
